@@ -59,6 +59,10 @@ class SymList:
     def sym_havoc(self, I, name):
         return SymList(I, name, self.sort, self.wrap, self.unwrap)
 
+    def sym_iadd(self, I, other):
+        from .seqalg import extend_symlist
+        return extend_symlist(I, self, I.as_view(other))
+
     def sym_isinstance(self, I, name):
         return name == 'list'
 
